@@ -22,6 +22,8 @@ struct PolSpec {
     pol: GPolicy,
     slots: Slots,
     outcome: Outcome,
+    /// index of the spec whose template this spec is another link of (same body, same slot values)
+    shares_template_of: Option<usize>,
 }
 
 fn want_name(k: usize) -> &'static str {
@@ -130,7 +132,7 @@ fn make_policy(rng: &mut Rng, w: &GWorld, effect: Effect, want: usize, allow_tem
             Outcome::Error(_) => 2,
         };
         if k == want {
-            return PolSpec { pol, slots, outcome };
+            return PolSpec { pol, slots, outcome, shares_template_of: None };
         }
     }
     unreachable!("fallback shapes always realise the wanted outcome")
@@ -150,9 +152,11 @@ fn build_pset(specs: &[PolSpec], ids: &[String], order: &[usize], rng: &mut Rng,
             render::policy_text(&s.pol, &mut o)
         };
         if s.pol.is_template() {
-            let tid = PolicyId::new(format!("template-of-{}", ids[i]));
-            let t = Template::parse(Some(tid.clone()), &text).map_err(|e| format!("template does not parse: {text}: {e}"))?;
-            pset.add_template(t).map_err(|e| format!("add_template: {e}"))?;
+            let tid = PolicyId::new(format!("template-of-{}", ids[s.shares_template_of.unwrap_or(i)]));
+            if pset.template(&tid).is_none() {
+                let t = Template::parse(Some(tid.clone()), &text).map_err(|e| format!("template does not parse: {text}: {e}"))?;
+                pset.add_template(t).map_err(|e| format!("add_template: {e}"))?;
+            }
             let mut vals: HashMap<SlotId, cedar_policy::EntityUid> = HashMap::new();
             if let Some(u) = &s.slots.principal {
                 vals.insert(SlotId::principal(), bridge::uid(u));
@@ -256,6 +260,22 @@ pub fn case(ctx: &mut CaseCtx) {
         }
     }
     let specs: Vec<PolSpec> = vector.iter().map(|(eff, want)| make_policy(&mut ctx.rng, &w, *eff, *want, true)).collect();
+    // now and then some policy appears several times under different ids: further links of the same template with
+    // the same slot values, or separately parsed copies of the same text (equal bodies, equal errors, equal locations)
+    let mut specs = specs;
+    if !specs.is_empty() && ctx.idx >= exh_total && ctx.rng.chance(1, 4) {
+        for _ in 0..1 + ctx.rng.below(3) {
+            let j = ctx.rng.below(specs.len());
+            let mut dup = specs[j].clone();
+            if dup.pol.is_template() && ctx.rng.chance(3, 4) {
+                dup.shares_template_of = Some(specs[j].shares_template_of.unwrap_or(j));
+                ctx.count("policies:extra-link-of-same-template");
+            } else {
+                ctx.count("policies:copy-under-another-id");
+            }
+            specs.push(dup);
+        }
+    }
     let ids: Vec<String> = (0..specs.len()).map(|i| format!("p{i}")).collect();
     let model: ModelResponse = authorize_model(&specs.iter().zip(&ids).map(|(s, id)| (id.clone(), s.pol.effect, s.outcome)).collect::<Vec<_>>());
     let n_sp = specs.iter().filter(|s| s.pol.effect == Effect::Permit && s.outcome == Outcome::Satisfied).count();
